@@ -42,8 +42,18 @@ func VerifRun_C15() {
 	// class), instead of standing in a block of their own below the classes
 	stacked := verifBool("aliasOnClass")
 	aliasText, aliasLines := "", 0
+	// (form 2 through an alias: ---@alias M X[])
+	arrayAlias := form == 2 && verifBool("arrayAlias")
+	// the alias may have been retargeted in the editor since the file was saved: the saved text names another class
+	aliasSaved := ""
+	other := c15names[(target+1)%nc]
+	if arrayAlias {
+		aliasText, aliasLines = "---@alias M "+c15names[target]+"[]\n", 1
+		aliasSaved = "---@alias M " + other + "[]\n"
+	}
 	switch form {
 	case 1:
+		aliasSaved = "---@alias M " + other + "\n"
 		aliasText, aliasLines = "---@alias M "+c15names[target]+"\n", 1
 	case 4:
 		aliasText, aliasLines = "---@alias M table<B, "+c15names[target]+">\n", 1
@@ -89,6 +99,9 @@ func VerifRun_C15() {
 	case 2:
 		typ = x + "[]"
 		use = "v[1]"
+		if arrayAlias {
+			typ = "M"
+		}
 	case 3:
 		typ = "table<string, " + x + ">"
 		use = "v.k"
@@ -154,7 +167,20 @@ func VerifRun_C15() {
 		cycle = true
 	}
 	file := "/w/a.lua"
-	p := check.VpProject([]string{file}, [][]byte{[]byte(src)})
+	var p *check.AllProject
+	if aliasSaved != "" && nc > 1 && verifBool("aliasRetargeted") {
+		// the saved file still has the old alias target; the buffer (one didChange later) has the new one
+		saved := ""
+		for i := 0; i+len(aliasText) <= len(src); i++ {
+			if src[i:i+len(aliasText)] == aliasText {
+				saved = src[:i] + aliasSaved + src[i+len(aliasText):]
+				break
+			}
+		}
+		p = check.VpProjectEdited([]string{file}, [][]byte{[]byte(saved)}, [][]byte{[]byte(src)})
+	} else {
+		p = check.VpProject([]string{file}, [][]byte{[]byte(src)})
+	}
 	verifObserve("program", "form="+strconv.Itoa(form)+" target="+x)
 	class := ""
 	_ = cycle
